@@ -52,6 +52,7 @@ func configs04(tier string) []xplore.Config {
 		{target: "t1", paths: []string{"a/b"}, updatesOnly: true, mode: stream},
 		{target: "*", paths: []string{"*"}, mode: stream},
 		{target: "t1", paths: []string{"a/b", "a/c"}, mode: stream},
+		{target: "t1", paths: []string{"a", "a"}, mode: stream}, // the same path twice in one list
 	}
 	var out []xplore.Config
 	maxLen, bound := 2, 2
